@@ -6,7 +6,10 @@ attributes win over inherited style); order preservation; the matrix string writ
 SaxDocument.generate_dom is the inverse permutation of the matrix(...) reader.
 Not decided: internals of svgwrite / ElementTree / minidom beyond the API model, d-string equality (C01)."""
 import ast
-from svtstatic import poly
+from svtstatic import poly, redfa
+import re as _re
+import re._parser as _sre_parse
+import re._constants as _SC
 from svtstatic.values import ExtRef, PyFunc, Closure, StrT, Hole
 from .common import *
 from .c17 import Elem, _wrap, SVGNS, own_object_per_element
@@ -37,6 +40,7 @@ def run(ctx):
     ob = lambda r: Obligation(ctx, r)
     own_object_per_element(ctx, mdl, 'R18.2')
     _save_writes_serialisation(ctx, mdl)
+    _serialised_text_not_rewritten(ctx, mdl)
     _documents_do_not_share_state(ctx, mdl)
 
     # ================================================================= writers: what element name do they create?
@@ -562,3 +566,131 @@ def _documents_do_not_share_state(ctx, mdl):
         return True, ''
     Obligation(ctx, 'R18.3').run(fi, 'two Documents created from scratch have their own root elements', th, judge,
                                  opts={'ext_hooks': {'os.path.abspath': lambda it, a, k: a[0]}})
+
+
+# ---------------------------------------------------------------------------------------------------
+# R18.6  serialised XML text is not rewritten inside attribute values
+_SER_SOURCES = {'tostring', 'toxml', 'toprettyxml', '__repr__', 'pretty', 'tostringlist'}
+_PLAIN_VALUE = r'[A-Za-z0-9 .,;:\-\n\t]+'       # strings every writer may put inside an attribute value (d, style, class)
+
+
+def _is_ser_source(n):
+    if not isinstance(n, ast.Call):
+        return False
+    f = n.func
+    if isinstance(f, ast.Name) and f.id in ('repr', 'str') and n.args and isinstance(n.args[0], ast.Name) and n.args[0].id == 'self':
+        return True
+    return isinstance(f, (ast.Attribute, ast.Name)) and (f.attr if isinstance(f, ast.Attribute) else f.id) in _SER_SOURCES
+
+
+def _has_anchor(items):
+    for op, av in items:
+        if op in (_SC.AT, _SC.ASSERT, _SC.ASSERT_NOT, _SC.GROUPREF, _SC.GROUPREF_EXISTS):
+            return True
+        subs = []
+        if op in (_SC.MAX_REPEAT, _SC.MIN_REPEAT, getattr(_SC, 'POSSESSIVE_REPEAT', None)):
+            subs = [av[2]]
+        elif op == _SC.SUBPATTERN:
+            subs = [av[3]]
+        elif op == _SC.BRANCH:
+            subs = av[1]
+        elif op == getattr(_SC, 'ATOMIC_GROUP', None):
+            subs = [av]
+        if any(_has_anchor(list(x)) for x in subs):
+            return True
+    return False
+
+
+def _rewrites_plain_value(pattern):
+    """True / False / None(undecided): can the pattern match a non-empty string made only of characters that are legal, unescaped,
+    inside an attribute value?  (then a substitution on serialised XML can change an attribute value)"""
+    try:
+        items = list(_sre_parse.parse(pattern))
+        if _has_anchor(items):
+            return None, 'anchors / look-around / back-references are outside the DFA fragment'
+        d = redfa.compile_dfa(items)
+        safe = redfa.compile_dfa(_PLAIN_VALUE)
+    except Undecidable as e:
+        return None, str(e)
+    w = redfa._product_search(d, safe, lambda ia, ib: ia and ib)
+    return (w is not None), w
+
+
+def _text_rewrites(fnode):
+    """(call node, pattern or None, kind) for every substitution whose subject derives from a serialisation result in this function"""
+    tainted = set()
+    def expr_tainted(e):
+        return any(_is_ser_source(n) or (isinstance(n, ast.Name) and n.id in tainted) for n in ast.walk(e))
+    changed = True
+    while changed:
+        changed = False
+        for st in ast.walk(fnode):
+            if isinstance(st, (ast.Assign, ast.AugAssign, ast.AnnAssign)) and st.value is not None and expr_tainted(st.value):
+                tg = st.targets if isinstance(st, ast.Assign) else [st.target]
+                for t in tg:
+                    for n in ast.walk(t):
+                        if isinstance(n, ast.Name) and n.id not in tainted:
+                            tainted.add(n.id)
+                            changed = True
+    nsrc = sum(1 for n in ast.walk(fnode) if _is_ser_source(n))
+    out = []
+    for c in ast.walk(fnode):
+        if not isinstance(c, ast.Call) or not isinstance(c.func, ast.Attribute):
+            continue
+        a = c.func.attr
+        const = lambda e: e.value if isinstance(e, ast.Constant) and isinstance(e.value, str) else None
+        if a in ('sub', 'subn'):
+            kw = {k.arg: k.value for k in c.keywords}
+            if isinstance(c.func.value, ast.Name) and c.func.value.id in ('re', '_re', 'regex'):
+                subj = c.args[2] if len(c.args) > 2 else kw.get('string')
+                pat = c.args[0] if c.args else kw.get('pattern')
+                if subj is not None and expr_tainted(subj):
+                    out.append((c, const(pat) if pat is not None else None, 're.%s' % a))
+            else:
+                subj = c.args[1] if len(c.args) > 1 else kw.get('string')
+                if subj is not None and expr_tainted(subj):
+                    out.append((c, None, '<compiled>.%s' % a))
+        elif a in ('replace', 'translate') and expr_tainted(c.func.value):
+            p0 = const(c.args[0]) if (a == 'replace' and c.args) else None
+            out.append((c, _re.escape(p0) if p0 else None, 'str.%s' % a))
+    return nsrc, out
+
+
+def _serialised_text_not_rewritten(ctx, mdl):
+    ctx.rule('R18.6', 'between serialisation (tostring / repr(self) / toxml / toprettyxml / pretty) and the file, no regex or string '
+                      'substitution is applied whose pattern can match inside an attribute value (pattern -> DFA, intersected with the '
+                      'language of plain attribute text)', 3)
+    # controls (decision procedure on two literal snippets): must fire / must stay silent on every run
+    for snippet, want in (("def f(self):\n    return re.sub(r'\\s{2,}', '', repr(self))", True),
+                          ("def f(self):\n    return re.sub(r'>\\s+<', '><', repr(self))", False)):
+        nsrc, rw = _text_rewrites(ast.parse(snippet).body[0])
+        got = [_rewrites_plain_value(p)[0] for _c, p, _k in rw]
+        if got != [want]:
+            raise AnalysisError('R18.6 control %r decided %s' % (snippet, got))
+    ctx.ok('R18.6', 'c18.controls', 'decision procedure: squeezing white space fires, joining tags does not')
+    seen = 0
+    for mname in ('document', 'svg_io_sax', 'paths2svg'):
+        m = mdl.module(mname)
+        funcs = list(m.functions.values()) + [f for c in m.classes.values() for f in c.all_funcs()]
+        for f in sorted(funcs, key=lambda f: f.qualname):
+            nsrc, rw = _text_rewrites(f.node)
+            if not nsrc:
+                continue
+            seen += 1
+            if not rw:
+                ctx.ok('R18.6', f.qualname, 'serialised text is handed on unmodified')
+            for c, pat, kind in rw:
+                lab = '%s on serialised text' % kind
+                w_ = '%s:%d' % (f.file, c.lineno)
+                if pat is None:
+                    ctx.undecided('R18.6', f.qualname, lab, 'pattern is not a literal', where=w_)
+                    continue
+                bad, wit = _rewrites_plain_value(pat)
+                if bad is None:
+                    ctx.undecided('R18.6', f.qualname, lab, wit, where=w_)
+                else:
+                    ctx.record('R18.6', f.qualname, lab, not bad, where=w_,
+                               detail='' if not bad else 'pattern %r matches %r, which can occur inside an attribute value (d, style, class): the value '
+                               'read back differs from the one written' % (pat, wit), sample={'pattern': pat, 'witness': wit})
+    if seen < 2:
+        raise AnalysisError('R18.6: fewer than 2 serialising functions found (%d)' % seen)
